@@ -21,7 +21,8 @@
 (* dicom-rs's documented choices that the model follows:                   *)
 (*  - release() is one call, two protocol steps: put A-RELEASE-RQ, then    *)
 (*    take the next PDU; A-RELEASE-RP completes it and closes; anything    *)
-(*    else (P-DATA, A-RELEASE-RQ = release collision, A-ABORT) or an end   *)
+(*    else (P-DATA, A-RELEASE-RQ = release collision, A-ABORT, a PDU of    *)
+(*    unknown type) or an end                                              *)
 (*    of stream makes it fail and the connection is closed (the object is  *)
 (*    consumed);                                                           *)
 (*  - abort() puts A-ABORT and closes;                                     *)
@@ -38,7 +39,7 @@ CONSTANTS Budget       \* API actions per side
 
 Sides == {"R", "A"}
 Other(s) == IF s = "R" THEN "A" ELSE "R"
-Kinds == {"DATA", "RRQ", "RRP", "ABORT"}
+Kinds == {"DATA", "RRQ", "RRP", "ABORT", "UNK"}   \* UNK: a PDU of an unrecognised type
 Live == {"Est", "AwaitRP"}
 Ended == {"Released", "Failed", "Aborted", "Closed"}
 
@@ -55,7 +56,7 @@ VARIABLES st,    \* st[s]   : protocol state of side s
 vars == <<st, open, chan, left, pend, hist, conf>>
 Conforming == conf
 
-NoHist == [rrq |-> FALSE, rrp |-> FALSE, late |-> FALSE, viol |-> FALSE]
+NoHist == [rrq |-> FALSE, rrp |-> FALSE, late |-> FALSE, viol |-> FALSE, unk |-> FALSE]
 
 Init == /\ st = [s \in Sides |-> "Est"]
         /\ open = [s \in Sides |-> TRUE]
@@ -94,7 +95,8 @@ Step(s, put, take, newst, closes, cost, newpend) ==
                       [rrq  |-> @.rrq \/ put = "RRQ",
                        rrp  |-> @.rrp \/ (take /\ st[s] = "AwaitRP" /\ Head(chan[o]) = "RRP"),
                        late |-> @.late \/ (put # "-" /\ st[s] \in Ended),
-                       viol |-> @.viol \/ (put \notin {"-", "RRP"} /\ pend[s])]]
+                       viol |-> @.viol \/ (put \notin {"-", "RRP"} /\ pend[s]),
+                       unk  |-> @.unk \/ put = "UNK"]]
 
 \* In conforming-SCP mode the acceptor with an unanswered release request does nothing but reply
 Free(s) == ~(Conforming /\ s = "A" /\ pend[s])
@@ -104,6 +106,12 @@ AtEof(s)     == chan[Other(s)] = <<>> /\ ~open[Other(s)]
 
 SendData(s) == /\ st[s] = "Est" /\ Free(s)
                /\ Step(s, "DATA", FALSE, "Est", FALSE, 1, pend[s])
+
+\* a PDU of a type the standard does not define (the library can write and read one)
+\* (at most one per side: it behaves like one more kind of data and only has to be seen once by
+\* every receiving state)
+SendUnk(s) == /\ st[s] = "Est" /\ Free(s) /\ ~hist[s].unk
+              /\ Step(s, "UNK", FALSE, "Est", FALSE, 1, pend[s])
 
 \* receive() hands the application the head PDU
 Recv(s, k) == /\ st[s] = "Est" /\ Free(s) /\ HeadIs(s, k)
@@ -136,41 +144,47 @@ Drop(s) == /\ st[s] = "Est" /\ Free(s)
 (* Named sub-actions (the labels of the dumped graph).                     *)
 (***************************************************************************)
 R_Send       == SendData("R")
+R_SendUnk    == SendUnk("R")
 R_Recv_DATA  == Recv("R", "DATA")
 R_Recv_RRQ   == Recv("R", "RRQ")
 R_Recv_RRP   == Recv("R", "RRP")
 R_Recv_ABORT == Recv("R", "ABORT")
+R_Recv_UNK   == Recv("R", "UNK")
 R_Recv_EOF   == RecvEof("R")
 R_RelReq     == ReleaseReq("R")
 R_Wait_RRP   == Wait("R", "RRP")
 R_Wait_DATA  == Wait("R", "DATA")
 R_Wait_RRQ   == Wait("R", "RRQ")
 R_Wait_ABORT == Wait("R", "ABORT")
+R_Wait_UNK   == Wait("R", "UNK")
 R_Wait_EOF   == WaitEof("R")
 R_Rsp        == Rsp("R")
 R_Abort      == Abort("R")
 R_Drop       == Drop("R")
 
 A_Send       == SendData("A")
+A_SendUnk    == SendUnk("A")
 A_Recv_DATA  == Recv("A", "DATA")
 A_Recv_RRQ   == Recv("A", "RRQ")
 A_Recv_RRP   == Recv("A", "RRP")
 A_Recv_ABORT == Recv("A", "ABORT")
+A_Recv_UNK   == Recv("A", "UNK")
 A_Recv_EOF   == RecvEof("A")
 A_RelReq     == ReleaseReq("A")
 A_Wait_RRP   == Wait("A", "RRP")
 A_Wait_DATA  == Wait("A", "DATA")
 A_Wait_RRQ   == Wait("A", "RRQ")
 A_Wait_ABORT == Wait("A", "ABORT")
+A_Wait_UNK   == Wait("A", "UNK")
 A_Wait_EOF   == WaitEof("A")
 A_Rsp        == Rsp("A")
 A_Abort      == Abort("A")
 A_Drop       == Drop("A")
 
-Next == \/ R_Send \/ R_Recv_DATA \/ R_Recv_RRQ \/ R_Recv_RRP \/ R_Recv_ABORT \/ R_Recv_EOF
+Next == \/ R_Send \/ R_SendUnk \/ R_Recv_UNK \/ R_Wait_UNK \/ R_Recv_DATA \/ R_Recv_RRQ \/ R_Recv_RRP \/ R_Recv_ABORT \/ R_Recv_EOF
         \/ R_RelReq \/ R_Wait_RRP \/ R_Wait_DATA \/ R_Wait_RRQ \/ R_Wait_ABORT \/ R_Wait_EOF
         \/ R_Rsp \/ R_Abort \/ R_Drop
-        \/ A_Send \/ A_Recv_DATA \/ A_Recv_RRQ \/ A_Recv_RRP \/ A_Recv_ABORT \/ A_Recv_EOF
+        \/ A_Send \/ A_SendUnk \/ A_Recv_UNK \/ A_Wait_UNK \/ A_Recv_DATA \/ A_Recv_RRQ \/ A_Recv_RRP \/ A_Recv_ABORT \/ A_Recv_EOF
         \/ A_RelReq \/ A_Wait_RRP \/ A_Wait_DATA \/ A_Wait_RRQ \/ A_Wait_ABORT \/ A_Wait_EOF
         \/ A_Rsp \/ A_Abort \/ A_Drop
 
